@@ -19,6 +19,8 @@ checks = {
             TECH + " (seeded inputs on simulated tunnels; policy model oracle over the dial log)"),
     "C04": ("exploration", "seeded search over issuing/presenting address pairs (peer, X-Forwarded-For chains, legacy IN/OUT split) x verification switch on real tunnels",
             TECH + " (seeded address pairs on simulated tunnels; address model oracle)"),
+    "C05": ("exploration", "every startable mechanism subset is booted (real main(), TLS where required, auth node with the real NTLM verifier over gRPC) and probed with Authorization variants, complete NTLM exchanges on real tunnels and auth-node faults; route model oracle plus the auth node's own confirmation log",
+            TECH + " (configurations enumerated by seed; auth-node down/slow faults; route model + confirmation log)"),
     "C06": ("exploration", "seeded search over byte streams, packetisations, stalls and interleavings of both relay directions; stream equality after a fault-free drain",
             TECH + " (stall faults, TCP re-segmentation, stream-equality oracle)"),
     "C07": ("exploration", "2-64 concurrent tunnels with tagged streams under tape-chosen interleavings; per-tunnel reference machine and stream oracles, dial attribution by per-tunnel host names",
@@ -48,7 +50,6 @@ not_applicable = [
 ]
 
 pending = {
-    "C05": "check under construction in this session (AUTH family)",
 }
 
 def main():
